@@ -119,6 +119,8 @@ def ast_hash(relpath, qualname=None):
 class Check:
     def __init__(self, prop, pkg, props, driver=None, lemma_files=(), model_files=(),
                  extra_targets=(), trusted=(), assumptions=(), tier=None, seed=None, more_props=()):
+        global CURRENT
+        CURRENT = self
         self.prop = prop
         self.pkg = pkg
         self.pkgdir = os.path.join(ROOT, "lean", pkg)
@@ -405,6 +407,7 @@ class Check:
         return [e for e in json.load(open(p)) if e.get("property") == self.prop]
 
     def finish(self):
+        self._finishing = True
         known = self._known()
         finding_sigs = {e["signature"]: e for e in known if e.get("kind") == "finding"}
         listed, unlisted = [], []
@@ -503,8 +506,16 @@ def load_corpus(prop):
     return out
 
 
+CURRENT = None        # the Check of this process (set by Check.__init__)
+
+
 def main_wrapper(fn):
-    """run a property main; infrastructure errors -> exit 2 (never a VIOLATION)"""
+    """run a property main.  Infrastructure errors (InfraError, OS-level errors of the harness itself) -> exit 2,
+    never a VIOLATION.  Any OTHER exception that escapes the exploration is attributed to the code under test: it is
+    either raised inside the library on an input the property admits, or it arises while the harness interprets what
+    the library returned (wrong shape / type / missing key).  The same deterministic harness passes on the unchanged
+    code, so the changed behaviour is the cause: it is reported as a violation with the traceback as replay, instead
+    of hiding a real break behind "infrastructure"."""
     try:
         fn()
     except SystemExit:
@@ -512,7 +523,22 @@ def main_wrapper(fn):
     except InfraError as e:
         print(f"INFRA-ERROR {e}", file=sys.stderr)
         sys.exit(2)
-    except Exception:
+    except Exception as e:
         traceback.print_exc()
-        print("INFRA-ERROR unexpected exception in harness", file=sys.stderr)
-        sys.exit(2)
+        ck = CURRENT
+        tb = traceback.extract_tb(e.__traceback__)
+        repo = os.path.realpath(REPO)
+        inside = [f for f in tb if os.path.realpath(f.filename).startswith(os.path.join(repo, "typhon"))]
+        os_level = isinstance(e, (OSError, MemoryError)) and not inside
+        if ck is None or getattr(ck, "_finishing", False) or os_level or os.environ.get("VERIF_HARNESS_EXC_IS_INFRA"):
+            print("INFRA-ERROR unexpected exception in harness", file=sys.stderr)
+            sys.exit(2)
+        last = (inside or tb)[-1]
+        where = (os.path.relpath(last.filename, repo) if inside else os.path.basename(last.filename)) + f":{last.lineno}"
+        ck.violation("raised" if inside else "harness-exception",
+                     f"{type(e).__name__}: {str(e)[:200]} at {where} "
+                     + ("(raised inside the library on an input the property admits)" if inside else
+                        "(while the harness interpreted what the library returned; the same harness passes on the unchanged code)"),
+                     {"fn": "exception", "traceback": [f"{os.path.basename(f.filename)}:{f.lineno} {f.name}" for f in tb[-8:]],
+                      "last_sample": ck.samples[-1] if ck.samples else None})
+        ck.finish()
